@@ -109,6 +109,21 @@ CHECKS['C17'] = dict(category='proof', design_ref='DESIGN.md §7 C17', technique
           "filter, quantified over all substances), the reported volume is the sum of the remaining volumes, name and "
           "capacity are carried over."))
 
+CHECKS['C16'] = dict(category='proof', design_ref='DESIGN.md §7 C16',
+    technique='contract-based deductive verification: class invariant + one contract per Recipe method on a symbolic recipe state (name-keyed maps/sets of arbitrary size, symbolic step count); bounded call-sequence enumeration as stand-in for the bake loop interior',
+    note=COMMON_NOTE + (" Arguments are well-typed objects of the documented kinds. The step loop of bake is cut: its "
+                        "effect on results/used is havocked and a syntactic frame obligation shows the loop cannot touch "
+                        "locked/stages/current_stage/steps; the clauses that need the loop's effect on `used` "
+                        "(refusing to bake with an unused object) rest on the bounded stand-in."),
+    text=("Every declaring / step-adding / stage method and bake is executed symbolically on an arbitrary recipe state "
+          "satisfying the class invariant (dom(results), used, stages as sets of arbitrary size; len(steps), "
+          "current_stage symbolic): on a locked recipe each call raises RuntimeError and writes nothing; on an open "
+          "recipe a call returns only if every container/plate operand is declared and no created name clashes, then "
+          "appends exactly one step and changes nothing else; stage rules (one open stage, unique names, only the open "
+          "stage can be ended); bake closes an open stage, returns only when #used == #declared, and locks. Unbounded "
+          "in the call history. Bounded stand-in (labelled): all call sequences up to length 4 (5 thorough) over a "
+          "small alphabet on the real package against a reference state machine."))
+
 NOT_YET = "check not built yet in this round (under construction; not claimed)"
 NOT_APPLICABLE = {}
 
